@@ -209,14 +209,14 @@ def parse_assumptions(log):
     return res
 
 
-def go_build(pkg, out, tags="verif", timeout=900):
+def go_build(pkg, out, tags="verif", timeout=900, extra=()):
     os.makedirs(BIN, exist_ok=True)
     gosum_src = os.path.join(REPO, "go.sum")
     gosum_dst = os.path.join(HARNESS, "go.sum")
     if os.path.exists(gosum_src):
         if not os.path.exists(gosum_dst) or open(gosum_src).read() != open(gosum_dst).read():
             shutil.copy(gosum_src, gosum_dst)
-    cmd = ["go", "build", "-tags", tags, "-o", out, pkg]
+    cmd = ["go", "build"] + list(extra) + ["-tags", tags, "-o", out, pkg]
     if ALT:
         md = os.path.join(BUILD, ALTTAG, "mod")
         os.makedirs(md, exist_ok=True)
@@ -224,7 +224,7 @@ def go_build(pkg, out, tags="verif", timeout=900):
         open(os.path.join(md, "go.mod"), "w").write(gm)
         if os.path.exists(gosum_src):
             shutil.copy(gosum_src, os.path.join(md, "go.sum"))
-        cmd = ["go", "build", "-modfile=" + os.path.join(md, "go.mod"), "-tags", tags, "-o", out, pkg]
+        cmd = ["go", "build"] + list(extra) + ["-modfile=" + os.path.join(md, "go.mod"), "-tags", tags, "-o", out, pkg]
     rc, o, dt = sh(cmd, cwd=HARNESS, env=GOENV, timeout=timeout)
     return rc, o, dt
 
@@ -370,8 +370,10 @@ def run_check(pid, tier, seed, replay=None):
         # 3. harness build (from /repo's working tree)
         hbin = None
         if cfg.get("harness"):
-            hbin = os.path.join(BIN, cfg["harness"])
-            rc, o, dt = go_build("./cmd/" + cfg["harness"], hbin, cfg.get("tags", "verif"))
+            # per-tier extra build flags, e.g. "go_build_flags": ["-race"] in the thorough section
+            gflags = list(tcfg.get("go_build_flags", []))
+            hbin = os.path.join(BIN, cfg["harness"] + ("-" + "".join(f.strip("-") for f in gflags) if gflags else ""))
+            rc, o, dt = go_build("./cmd/" + cfg["harness"], hbin, cfg.get("tags", "verif"), extra=gflags)
             if rc != 0:
                 problems.append("harness does not build against /repo's current sources "
                                 "(correspondence cannot be established):\n" + o[-2500:])
